@@ -228,6 +228,35 @@ def child_inputs(v: Any, x: Any, e: Any) -> List[Any]:
     return none
 
 
+def in_hand(v: Any, x: Any) -> Any:
+    """What a coercing / preprocessing validator has in hand after its gate and processors; _NOARG when the gate
+    rejects or anything raises."""
+    try:
+        val = x
+        co = getattr(v, "coerce", None)
+        if co is not None:
+            r = co(x)
+            if not r.is_just:
+                return _NOARG
+            val = r.val
+        for p in (getattr(v, "preprocessors", None) or []):
+            val = p(val)
+        return val
+    except Exception:  # noqa
+        return _NOARG
+
+
+def _same_value(a: Any, b: Any) -> bool:
+    """Equal values of the same runtime types (via the term form); identical when they have no term form."""
+    from ..build import from_py, _CURRENT_CT
+    try:
+        return from_py(a, _CURRENT_CT[0]) == from_py(b, _CURRENT_CT[0])
+    except HarnessError:
+        return True
+    except Exception:  # noqa
+        return True
+
+
 def walk(v: Any, x: Any, inv: Any, path: str) -> Optional[str]:
     """node_ok, recursively, on live objects: who by identity, values by identity wherever nothing
     has been coerced or preprocessed yet."""
@@ -243,6 +272,14 @@ def walk(v: Any, x: Any, inv: Any, path: str) -> Optional[str]:
             e, (KE.PredicateErrs, KE.KeyErrs, KE.ExtraKeysErr, KE.IndexErrs, KE.SetErrs, KE.MapErr, KE.UnionErrs)) \
             and (type(v).__name__ not in ("DataclassValidator", "NamedTupleValidator") or isinstance(x, dict)):
         return f"{path}: nothing is coerced or preprocessed by {v!r}, yet its {type(e).__name__} node holds {inv.value!r} (id {id(inv.value)}), not the caller's own object {x!r} (id {id(x)})"
+    if x is not _NOARG and not plain(v) and type(v).__module__.startswith("koda_validate") and isinstance(
+            e, (KE.PredicateErrs, KE.KeyErrs, KE.ExtraKeysErr, KE.IndexErrs, KE.SetErrs, KE.MapErr)):
+        # a later stage of a coercing / preprocessing validator: the node holds the value as coerced and processed
+        # (recomputed here from the validator's own coercer and processors)
+        hand = in_hand(v, x)
+        if hand is not _NOARG and not _same_value(inv.value, hand):
+            return (f"{path}: the {type(e).__name__} node of {v!r} holds {inv.value!r}, but the value it had in hand after its "
+                    f"coercer / processors is {hand!r} (input {x!r})")
     kids = children_of(v)
     kid_x = child_inputs(v, x, e)
     for i, ch in enumerate(direct_children(e)):
